@@ -34,11 +34,11 @@ func TestMain(m *testing.M) {
 
 type ent struct {
 	key interface{}
-	val int
+	val interface{}
 	w   uint
 }
 
-func (e ent) String() string { return fmt.Sprintf("%v(v=%d,w=%d)", e.key, e.val, e.w) }
+func (e ent) String() string { return fmt.Sprintf("%v(v=%v,w=%d)", e.key, e.val, e.w) }
 
 type model struct {
 	maxW  uint
@@ -77,7 +77,7 @@ func (m *model) refresh(i int) {
 	m.items = append(append(m.items[:i:i], m.items[i+1:]...), e)
 }
 
-func (m *model) add(k interface{}, v int, w uint) []ent {
+func (m *model) add(k interface{}, v interface{}, w uint) []ent {
 	if i := m.find(k); i >= 0 {
 		m.items[i].val, m.items[i].w = v, w
 		m.refresh(i)
@@ -133,7 +133,7 @@ type impl struct {
 type opRec struct {
 	code    string
 	key     interface{}
-	val     int
+	val     interface{}
 	w       uint
 	mw      uint
 	ms      int
@@ -143,7 +143,7 @@ type opRec struct {
 func (o opRec) String() string {
 	switch o.code {
 	case "add", "coa", "poa":
-		return fmt.Sprintf("%s(%v,v=%d,w=%d)", o.code, o.key, o.val, o.w)
+		return fmt.Sprintf("%s(%v,v=%v,w=%d)", o.code, o.key, o.val, o.w)
 	case "get", "peek", "contains", "remove":
 		return fmt.Sprintf("%s(%v)", o.code, o.key)
 	case "resize":
@@ -246,6 +246,7 @@ func propC29(t *rapid.T) {
 		multiEvict, selfEvict, resizeEvict, purgeNonEmpty, removeHit, removeOldestHit bool
 		refreshPending, peekPending, refreshThenEvict, peekThenEvict, zeroBound       bool
 		readdHit, weightEvict, sizeEvict                                              bool
+		nilValues                                                                     int
 		nEvicted                                                                      int
 		full3                                                                         bool
 	)
@@ -313,11 +314,19 @@ func propC29(t *rapid.T) {
 		}
 		return uint(rapid.IntRange(0, hi).Draw(t, "weight"))
 	}
+	// values are distinct integers; one in six is the nil interface ("known key, nothing to remember")
 	nextVal := 0
-	drawVal := func() int { nextVal++; return nextVal }
+	drawVal := func(t *rapid.T) interface{} {
+		nextVal++
+		if rapid.IntRange(0, 5).Draw(t, "nilValue") == 0 {
+			nilValues++
+			return nil
+		}
+		return nextVal
+	}
 
 	doAdd := func(t *rapid.T) {
-		k, w, v := drawKey(t), drawWeight(t), drawVal()
+		k, w, v := drawKey(t), drawWeight(t), drawVal(t)
 		begin(opRec{code: "add", key: k, val: v, w: w})
 		i := m.find(k)
 		if i >= 0 {
@@ -401,7 +410,7 @@ func propC29(t *rapid.T) {
 
 	orAdd := func(code string) func(t *rapid.T) {
 		return func(t *rapid.T) {
-			k, w, v := drawKey(t), drawWeight(t), drawVal()
+			k, w, v := drawKey(t), drawWeight(t), drawVal(t)
 			begin(opRec{code: code, key: k, val: v, w: w})
 			i := m.find(k)
 			var ev []ent
@@ -580,6 +589,7 @@ func propC29(t *rapid.T) {
 	add(removeHit, "remove_hit")
 	add(removeOldestHit, "removeoldest_hit")
 	add(readdHit, "readd_existing")
+	add(nilValues > 0, "nil_value_stored")
 	add(refreshThenEvict, "eviction_after_order_changing_get_or_readd")
 	add(peekThenEvict, "eviction_after_peek_of_non_newest")
 	add(zeroBound, "zero_bound")
